@@ -28,6 +28,7 @@ obeys the law."""
 import copy
 
 from simkit import findings, world
+from simkit.sim import SimCrash
 
 from . import graphsim, storesim
 from .graphsim import NULL, GModel, gen_dag
@@ -448,7 +449,9 @@ def execute(sim, plan):
                 return tgt.generate_revision_history(op[1].encode(), **kw), None
             if kind == "uncommit":
                 return uncommit.uncommit(tgt, revno=op[1]), None
-        except Exception as e:  # noqa: BLE001
+        except (SimCrash, KeyboardInterrupt, SystemExit):
+            raise
+        except BaseException as e:  # noqa: B036 - a panic in the Rust parts arrives as a BaseException
             return None, e
         raise ValueError(op)
 
@@ -475,9 +478,11 @@ def execute(sim, plan):
     def judge(op, pred, res, exc, faultkind, site):
         kind = op[0]
         refusal = pred["refusal"]
-        if exc is not None and isinstance(exc, errors.LockContention) and model.bound and kind in ("pull", "push") and refusal is None:
-            # the tips are judged below as for a successful operation; the error itself is reported separately
-            deviation("self_deadlock", faultkind if faultkind == "none" else "none", f"{kind}:bound-target:tags-merge-reopens-locked-master", f"{op} on a bound target ended in {type(exc).__name__}: {exc} [state: {state_text()}]")
+        if exc is not None and model.bound and refusal is None and kind in ("pull", "push", "uncommit") and (isinstance(exc, errors.LockContention) or "LockContention" in str(exc)[:400]):
+            # the operation waited for a lock held by itself.  The tips are judged below as for a
+            # successful operation; the error itself is reported separately
+            what = "tags-delete-reopens-locked-master" if kind == "uncommit" else "tags-merge-reopens-locked-master"
+            deviation("self_deadlock", "none", f"{kind}:bound-target:{what}", f"{op} on a bound target ended in {type(exc).__name__}: {str(exc)[:300]} [state: {state_text()}]")
             exc = None
             res = None
         if exc is not None:
